@@ -1296,8 +1296,13 @@ def _check_trace(w, home, run_no):
     if not os.path.exists(f):
         raise Violation('trace', f'run {run_no}: trace enabled but no file was exported')
     with open(f) as fp:
-        tr = json.load(fp)
-    keys = sorted(tr, key=int)
+        text = fp.read()
+    try:
+        tr = json.loads(text)
+        keys = sorted(tr, key=int)
+    except (ValueError, TypeError) as e:
+        raise Violation('trace', f'run {run_no}: the exported trace is not a JSON object indexed by event number '
+                                 f'({len(text)} characters, {type(e).__name__}: {str(e)[:80]})')
     if [int(k) for k in keys] != list(range(len(keys))):
         raise Violation('trace', f'run {run_no}: trace indices are not 0..n-1: {keys[:10]}...')
     got = [(tr[k]['time'], tr[k]['asset_id'], tr[k]['action'], float(tr[k]['event_type'])) for k in keys]
